@@ -41,3 +41,35 @@ Example C19_ok_nontrivial :
   /\ regex_str "{x}.{y}" = "^(?P<x>.+?)\.(?P<y>.+?)$".
 Proof. vm_compute. repeat split; discriminate. Qed.
 Print Assumptions C19_ok_nontrivial.
+
+(* ---- which resources a service sees (the helpers the client offers) ---- *)
+From GV Require Import Model.Selective Model.ResVis Proofs.ResVis.
+
+(* the visited-set search over message-typed fields never runs out of fuel ... *)
+Theorem C19_visible_total : forall sch tbl roots, exists hs, visible sch tbl roots = Some hs.
+Proof. exact visible_total. Qed.
+Print Assumptions C19_visible_total.
+
+(* ... and the client offers a helper for (type, pattern) exactly when some message reachable from a method's request or
+   response (LRO response type) through message-typed fields either is that resource or references it and the table knows it *)
+Theorem C19_visible_spec : forall sch tbl roots hs, visible sch tbl roots = Some hs ->
+  forall h, In h hs <->
+    exists t a m, In t roots /\ reach (vnext sch) t a /\ vfind sch a = Some m /\ In h (helpers_of tbl m).
+Proof. exact visible_spec. Qed.
+Print Assumptions C19_visible_spec.
+
+Theorem C19_helpers_of_spec : forall tbl m t p, In (t, p) (helpers_of tbl m) <->
+  vm_res m = Some (t, p) \/ (In t (vm_refs m) /\ assoc t tbl = Some p).
+Proof. exact helpers_of_spec. Qed.
+Print Assumptions C19_helpers_of_spec.
+
+Example C19_visible_example :
+  let sch := [ mkV "GetReq" ["Wrapper"] ["x.com/Vault"] None;
+               mkV "Wrapper" ["Book"; "Wrapper"] [] None;
+               mkV "Book" [] [] (Some ("x.com/Book", "shelves/{shelf}/books/{book}"));
+               mkV "Unrelated" [] [] (Some ("x.com/Other", "others/{other}")) ] in
+  visible sch [("x.com/Vault", "vaults/{vault}")] ["GetReq"]
+  = Some [("x.com/Book", "shelves/{shelf}/books/{book}"); ("x.com/Vault", "vaults/{vault}")]
+  /\ helper_sig ("x.com/KeyRing", "keyRings/{key_ring=**}") = ("key_ring_path", "keyRings/{key_ring}").
+Proof. exact visible_example. Qed.
+Print Assumptions C19_visible_example.
